@@ -5,10 +5,13 @@ algorithms) over `Int`, and instants as `Int` nanoseconds since the epoch.
 -/
 namespace S4V.Model.Time
 
-/-- days since 1970-01-01 of the civil date `y-m-d` (`1 ≤ m ≤ 12`, `1 ≤ d ≤ 31`) -/
+/-- days since 1970-01-01 of the civil date `y-m-d` (`1 ≤ m ≤ 12`, `1 ≤ d ≤ 31`).
+`/` on `Int` is floor division for a positive divisor (`Int.ediv`), so the era is
+`y' / 400` directly (Hinnant's `y' - 399` correction is for truncating division and
+would be wrong here for negative years). -/
 def daysFromCivil (y m d : Int) : Int :=
   let y' := if m ≤ 2 then y - 1 else y
-  let era := (if y' ≥ 0 then y' else y' - 399) / 400
+  let era := y' / 400
   let yoe := y' - era * 400
   let mp := (m + 9) % 12
   let doy := (153 * mp + 2) / 5 + d - 1
@@ -18,7 +21,7 @@ def daysFromCivil (y m d : Int) : Int :=
 /-- inverse of `daysFromCivil` -/
 def civilFromDays (z : Int) : Int × Int × Int :=
   let z' := z + 719468
-  let era := (if z' ≥ 0 then z' else z' - 146096) / 146097
+  let era := z' / 146097
   let doe := z' - era * 146097
   let yoe := (doe - doe / 1460 + doe / 36524 - doe / 146096) / 365
   let y := yoe + era * 400
